@@ -4,7 +4,7 @@ import re
 # always appended (helpers): file -> hosting source
 ALWAYS = {'src/lib.rs': ['kcommon.rs'], 'src/datatype.rs': ['kdt.rs'], 'src/cfb.rs': ['kcfb.rs']}
 
-DEFAULT = dict(arena=256, alloc='lazy', timeout=600, mem_gb=8.0, weight=1)
+DEFAULT = dict(arena=256, alloc='lazy', timeout=1500, mem_gb=8.0, weight=1)  # generous: a timeout on the unchanged tree would make the check worthless
 
 NOT_APPLICABLE = {
     'C07': 'purity/agreement of read calls lives in ZipArchive-bound generic methods and lazily filled caches; neither archive nor quick-xml reader can be constructed under CBMC (DESIGN 4/C07, 6)',
@@ -204,16 +204,16 @@ RULES = [
     (r'^c18_q_(vba|twin_vba)', dict(arena=256, fs_array=256)),
     (r'^c12_', dict(arena=64)),
     (r'^c16_', dict(arena=64)),
-    (r'^c04_', dict(arena=64, timeout=300)),
-    (r'^c06_', dict(arena=64, timeout=400, mem_gb=8.0)),
+    (r'^c04_', dict(arena=64, timeout=1200)),
+    (r'^c06_', dict(arena=64, timeout=1200, mem_gb=8.0)),
     (r'^c06_q_cfb_chain_', dict(unwind_violation=True)),
     (r'^c06_q_xls_mul_rk', dict(arena=256)),
     (r'^c06_q_lib_from_sparse', dict(arena=64, ignore_pointer=True)),
     (r'^c06_q_cfb_header', dict(arena=512, fs_array=64)),
-    (r'^c15_', dict(arena=64, timeout=600, mem_gb=12.0, unwindset={'18replace_cell_names': 14, '4TBuf': 20, '5check': 20})),
-    (r'^c11_', dict(arena=64, timeout=600, mem_gb=6.0)),
-    (r'^c09_', dict(arena=256, timeout=400, mem_gb=10.0)),
-    (r'^c08_', dict(arena=256, timeout=300, mem_gb=12.0)),
+    (r'^c15_', dict(arena=64, timeout=1800, mem_gb=12.0, unwindset={'18replace_cell_names': 14, '4TBuf': 20, '5check': 20})),
+    (r'^c11_', dict(arena=64, timeout=1800, mem_gb=6.0)),
+    (r'^c09_', dict(arena=256, timeout=1200, mem_gb=10.0)),
+    (r'^c08_', dict(arena=256, timeout=1200, mem_gb=12.0)),
     (r'^c03_', dict(arena=64)),
     (r'^c03_[qt]_fill_buffer', dict(arena=256)),
     (r'^c03_t_(row_change|two_rows)', dict(unwindset={'4KSrc': 14})),
@@ -221,11 +221,11 @@ RULES = [
     (r'^c13_[qt]_header', dict(arena=512)),
     (r'^c13_q_cutoff', dict(min_covers=2)),
     (r'^c10_q_grammar', dict(min_covers=2)),
-    (r'^c02_[qt]_rk_.*x100', dict(timeout=900, weight=9)),
-    (r'^c14_[qt]_push_column', dict(arena=64, mem_gb=14.0, timeout=1200, weight=9)),
-    (r'^c14_[qt]_xlsb?_(binop|funcvar|unary)', dict(arena=64, mem_gb=20.0, timeout=900, weight=8)),
+    (r'^c02_[qt]_rk_.*x100', dict(timeout=2700, weight=9)),
+    (r'^c14_[qt]_push_column', dict(arena=64, mem_gb=14.0, timeout=3600, weight=9)),
+    (r'^c14_[qt]_xlsb?_(binop|funcvar|unary)', dict(arena=64, mem_gb=20.0, timeout=2700, weight=8)),
     (r'^c14_[qt]_xls', dict(arena=64)),
-    (r'^c14_t_xls_binop_tight', dict(arena=64, mem_gb=20.0, timeout=900, unwindset={'4TBuf': 24, '13parse_formula': 8, '20model_push_letters': 6})),
+    (r'^c14_t_xls_binop_tight', dict(arena=64, mem_gb=20.0, timeout=2700, unwindset={'4TBuf': 24, '13parse_formula': 8, '20model_push_letters': 6})),
 ]
 
 DESCRIBE = {}
@@ -252,14 +252,14 @@ def config_for(pid, name, tier):
     cfg = dict(DEFAULT)
     thorough = False
     if tier == 'thorough':
-        cfg['timeout'] = 900
+        cfg['timeout'] = 1800
         cfg['mem_gb'] = 20.0
         thorough = True
     for rx, ov in RULES:
         if re.search(rx, name):
             cfg.update(ov)
     if thorough:
-        cfg['timeout'] = max(cfg['timeout'], 900)
+        cfg['timeout'] = max(cfg['timeout'], 1800)
         cfg['mem_gb'] = max(cfg['mem_gb'], 20.0)
     return cfg
 
